@@ -31,6 +31,7 @@ DRIVERS = {
     'C12': ('replayers.envw', dict(prop='C12')),
     'C19': ('replayers.tagsw', dict(prop='C19')),
     'C17': ('replayers.collw', dict(prop='C17')),
+    'C07': ('replayers.detw', dict(prop='C07')),
     'C18': ('replayers.decodew', dict(prop='C18')),
     'C14': ('replayers.batchw', dict(prop='C14')),
     'C15': ('replayers.batchw', dict(prop='C15')),
